@@ -57,9 +57,13 @@ def run(R, job):
         return kids
 
     for _ in range(n):
-        shape = r.choice(["fragment", "list", "body", "html", "html+head", "html head later", "html no body", "appended"])
+        shape = r.choice(["fragment", "list", "body", "html", "html+head", "html head later", "html no body", "appended", "body beside deps", "html beside deps"])
         attrs = r.choice([{}, {"lang": "en"}, {"lang": "en", "class_": "x y"}])
-        user_head_kids = [core.Tag("title", "t"), core.Tag("meta", name="x")][: r.choice([0, 1, 2])]
+        # the user's own head content: anything, including a charset declaration of its own in any position
+        user_head_kids = [core.Tag("title", "t"), core.Tag("meta", name="x"), core.Tag("meta", charset="latin-1"), core.Tag("link", rel="icon", href="i.png"),
+                          core.Tag("meta", charset="utf-8")]
+        r.shuffle(user_head_kids)
+        user_head_kids = user_head_kids[: r.choice([0, 1, 2, 3, 5])]
         if shape == "fragment":
             content = [core.Tag("div", *frag(2))]
         elif shape == "list":
@@ -74,6 +78,11 @@ def run(R, job):
             content = [core.Tag("html", dep(9), core.Tag("body", *frag(1)), core.Tag("head", *user_head_kids))]
         elif shape == "html no body":
             content = [core.Tag("html", *frag(1))]
+        elif shape == "body beside deps":
+            # a <body> (or <html>) with dependencies / head_content items next to it at the top level: whatever the layout, every dependency is hoisted and reported
+            content = [dep(8)][: r.choice([0, 1])] + [core.Tag("body", *frag(1), class_="b"), dep(7), core.head_content(core.Tag("title", "TT"))][: r.choice([2, 3])]
+        elif shape == "html beside deps":
+            content = [dep(8)][: r.choice([0, 1])] + [core.Tag("html", core.Tag("body", *frag(1))), dep(7)]
         else:
             content = []
         doc = core.HTMLDocument(*content, **attrs)
@@ -96,17 +105,24 @@ def run(R, job):
             problems.append("does not start with the doctype followed by <html>")
         p = P(); p.feed(html); p.close()
         root = p.root
-        if root is None or root["t"] != "html" or html.count("<html") != 1:
+        if root is None or root["t"] != "html" or (html.count("<html") != 1 and shape != "html beside deps"):
             problems.append("not exactly one <html> root")
         else:
             heads = [k for k in root["k"] if k["t"] == "head"]
-            expect_heads = max(1, sum(1 for k in (content[0].children if shape.startswith("html") else []) if isinstance(k, core.Tag) and k.name == "head"))
+            expect_heads = max(1, sum(1 for k in (content[0].children if shape.startswith("html") and "beside" not in shape else []) if isinstance(k, core.Tag) and k.name == "head"))
             if len(heads) != expect_heads:
                 problems.append(f"{len(heads)} <head> children")
             elif shape == "html+head" and dict(heads[0]["a"]).get("id") != "uh":
                 problems.append("the user's own <head> (its attributes) was not kept")
             elif not heads[0]["k"] or heads[0]["k"][0]["t"] != "meta" or dict(heads[0]["k"][0]["a"]).get("charset") != "utf-8":
                 problems.append("head does not start with <meta charset=utf-8>")
+            elif shape in ("html+head", "html head later"):
+                # the user's head content is kept, in order, after the charset declaration the document adds
+                mine = [(k.name, sorted((a, str(v)) for a, v in k.attrs.items())) for k in user_head_kids]
+                theirs = [(k["t"], sorted((a, str(v)) for a, v in k["a"])) for k in heads[0]["k"][1:]]
+                it_ = iter(theirs)
+                if not all(any(x == y for y in it_) for x in mine):
+                    problems.append(f"the user's head content {mine} is not kept in order after the added charset declaration: {theirs[:8]}")
             if shape in ("fragment", "list", "body", "appended"):
                 bodies = [k for k in root["k"] if k["t"] == "body"]
                 if len(bodies) != 1:
@@ -176,4 +192,16 @@ def run(R, job):
             samples.append({"shape": shape, "deps": [(d.name, str(d.version)) for d in exp]})
         if len(fails) >= 3:
             break
+    # contents appended later give the document the same contents given at construction would - whatever they are (falsy values, several at once, nothing)
+    for extra in ((0,), (0.0,), (False,), ("",), (0, ""), ([],), (None,), ("a", 0), (core.Tag("i"), None, 0), ([0, [""]],)):
+        checked += 1
+        try:
+            d1 = core.HTMLDocument(core.Tag("p", "x")); d1.append(*extra)
+            d2 = core.HTMLDocument(core.Tag("p", "x"), *extra)
+            h1, h2 = d1.render()["html"], d2.render()["html"]
+        except Exception as ex:
+            fails.append({"input": f"HTMLDocument(p('x')).append(*{extra!r})", "observed": "EXC " + type(ex).__name__ + ": " + str(ex)[:100], "expected": "a document"})
+            continue
+        if h1 != h2:
+            fails.append({"input": f"HTMLDocument(p('x')).append(*{extra!r}) vs HTMLDocument(p('x'), *{extra!r})", "observed": h1[-200:], "expected": h2[-200:]})
     return {"checked": checked, "nontrivial": nontrivial, "failures": fails[:3], "samples": samples}
